@@ -29,7 +29,7 @@ from vlib import ToolError, log
 LEVEL = {"C14": "model_checking"}
 SP = vlib.SPEC / "project"
 
-ALL_FEATURES = ["nobabel", "sameName", "pet", "loadable", "mutation", "dupEp", "dupEpWs", "xField", "xEp", "xParse", "xParse2",
+ALL_FEATURES = ["nobabel", "sameName", "refetch", "pet", "loadable", "mutation", "dupEp", "dupEpWs", "xField", "xEp", "xParse", "xParse2",
                 "xDup", "xLazy", "xType", "xDupSame"]
 TIERS = {
     "quick": dict(MaxFeat=2, PairWith=["nobabel", "xField"], FullPermFiles=3, Reps=5, DevReps=1, MaxDev=1, SwapBudget=1,
@@ -39,7 +39,7 @@ TIERS = {
 }
 ACTIONS = ["NewProcess", "PermuteDir", "ReverseDir", "Shuffle", "PermuteLiterals", "MoveEntrypoints"]
 JOBS = int(os.environ.get("VERIF_JOBS", "4"))
-MIN_REPS = 6          # fresh processes per environment while confirming / minimising
+MIN_REPS = 12         # fresh processes per environment while confirming / minimising (two orders: miss prob. 2^-11)
 
 
 # --------------------------------------------------------------------------------------------
